@@ -1975,6 +1975,12 @@ func (app *App) repairCascadeNode(node *mysql.Node, clusterState map[string]*nod
 
 		candidateState := clusterState[upstreamCandidate]
 		candidateNode := app.cluster.Get(upstreamCandidate)
+		if candidateState == nil || candidateNode == nil ||
+			(candidateState.IsMaster && candidateState.MasterState == nil) ||
+			(!candidateState.IsMaster && candidateState.SlaveState == nil) {
+			app.logger.Warn().Msgf("repair: state of new stream_from candidate %s is unknown, waiting", upstreamCandidate)
+			return
+		}
 		var candidateGTIDs gtids.GTIDSet
 		if candidateState.IsMaster {
 			candidateGTIDs = gtids.ParseGtidSet(candidateState.MasterState.ExecutedGtidSet)
